@@ -689,6 +689,126 @@ example : ∃ d, Data.decode junkData.encode = some d ∧ d.metadata.isSome = tr
     ∀ t, some trustedData = some t → libVerifyData t d = true :=
   C03_p2pdata_partial _ _ junk_p2p_data_accepted.1
 
+/-! ## the head request after a break: go-header's trusting period
+
+A node that starts with a stored head that is not recent asks its peers for THEIR head (`Syncer.Start` → `Head` →
+`subjectiveHead`; the peers are the configured ones plus whoever was connected).  The answer went through `Validate()`
+(`processResponses`).  Within the trusting period it is then verified against the stored head: `p2pLibAdmitTP` is
+`p2pLibAdmit`, and `C03_p2plib_full` applies.  When the stored head is OLDER than the trusting period
+(`headExpired`: go-header's `isExpired`) the answer becomes the new head **without `Verify`** ("automatic subjective
+initialization"), and `store.Append` stores it when it is the next height (`staleStoreHead`).  ev-node passes no
+trusting period (library default 336 h) and binds the store to the genesis proposer at the first header only
+(`p2pBootAdmit`): after the period anybody's self-signed header that a peer calls the head is stored, served to
+light clients, and is what a light node verifies everything later against.  Finding
+`C03/p2p-store/foreign-head-adopted-after-trusting-period` (op `p2pstale`, the real `HeaderSyncService.Start`). -/
+
+/-- the full statement for the head-request path, whatever the age of the stored head: what is admitted against a
+head naming the genesis proposer names the proposer and is signed with the proposer's key (hypothesis-free form: or a
+SHA-256 collision is in hand) -/
+def C03_p2plib_stale_full : Prop :=
+  ∀ (R : Bytes) (tp now : Int) (o : Oracle) (t : SignedHeader) (bs : Bytes),
+    t.header.proposerAddress = keyAddress R → p2pLibAdmitTP tp now o (some t) bs = .accepted →
+    ∃ sh, headerStage o bs = .ok sh ∧ sh.header.proposerAddress = keyAddress R ∧
+      (SignedByProposer o R sh ∨ AddrCollision o R sh.signer.pubKey)
+
+/-- what a peer can always make: the next height, hash-linked to the genuine head, signed with the peer's OWN key
+under the peer's OWN address -/
+def selfSignedNext : SignedHeader :=
+  { header := { height := 2, time := 1000, lastHeaderHash := genuineHeader.header.hash,
+                proposerAddress := keyAddress foreignRaw, chainId := "c" },
+    signature := [7, 7], signer := { address := keyAddress foreignRaw, pubKey := foreignKey } }
+
+/-- kernel-evaluated: the genuine head (time 5) with trusting period 100 — at `now = 50` the self-signed header is
+rejected at `Verify` and the store keeps its head; at `now = 1001` (head expired) it is ACCEPTED and becomes the
+store's head (height 2); the genuine next header is taken in both cases; the decoded item names the peer, not the
+proposer -/
+theorem stale_head_accepts_self_signed :
+    p2pLibAdmitTP 100 50 forgeO (some genuineHeader) selfSignedNext.encode = .rejVerify ∧
+    staleStoreHead 100 50 forgeO genuineHeader selfSignedNext.encode = 1 ∧
+    p2pLibAdmitTP 100 1001 forgeO (some genuineHeader) selfSignedNext.encode = .accepted ∧
+    staleStoreHead 100 1001 forgeO genuineHeader selfSignedNext.encode = 2 ∧
+    staleStoreHead 100 50 forgeO genuineHeader genuineNext.encode = 2 ∧
+    staleStoreHead 100 1001 forgeO genuineHeader genuineNext.encode = 2 ∧
+    (match headerStage forgeO selfSignedNext.encode with
+      | .ok sh => some sh.header.proposerAddress | _ => none) = some (keyAddress foreignRaw) ∧
+    keyAddress foreignRaw ≠ keyAddress proposerRaw := by decide +kernel
+
+/-- **the full statement fails on the current tree**: a head older than the trusting period, a self-signed forgery
+admitted -/
+theorem C03_p2plib_stale_fails : ¬ C03_p2plib_stale_full := by
+  intro h
+  obtain ⟨sh, hs, hpa, _⟩ := h proposerRaw 100 1001 forgeO genuineHeader selfSignedNext.encode rfl
+    stale_head_accepts_self_signed.2.2.1
+  have h7 := stale_head_accepts_self_signed.2.2.2.2.2.2.1
+  rw [hs] at h7
+  exact stale_head_accepts_self_signed.2.2.2.2.2.2.2 ((Option.some.inj h7).symm.trans hpa)
+
+/-- within the trusting period the head-request path is the library entry (`Validate`, then `Verify` against the
+stored head) -/
+theorem p2plibTP_within_eq (tp now : Int) (o : Oracle) (t : SignedHeader) (bs : Bytes)
+    (hw : headExpired tp now t = false) : p2pLibAdmitTP tp now o (some t) bs = p2pLibAdmit o (some t) bs := by
+  unfold p2pLibAdmitTP p2pLibAdmit p2pLibAdmitWith
+  simp [hw]
+
+/-- with no stored head nothing depends on the clock -/
+theorem p2plibTP_none_eq (tp now : Int) (o : Oracle) (bs : Bytes) :
+    p2pLibAdmitTP tp now o none bs = p2pLibAdmit o none bs := by
+  unfold p2pLibAdmitTP p2pLibAdmit p2pLibAdmitWith
+  rfl
+
+/-- **within the trusting period the full conclusion holds** (`C03_p2plib_full` under the explicit hypothesis that
+the stored head has not expired: `head.time + trustingPeriod ≥ now`), for every head naming the proposer, every
+answer, every oracle, every trusting period and clock -/
+theorem C03_p2plib_within_trusting_period (R : Bytes) (hnc : AddrNoCollision R) (tp now : Int) (o : Oracle)
+    (t : SignedHeader) (bs : Bytes) (hp : t.header.proposerAddress = keyAddress R)
+    (hw : headExpired tp now t = false) (h : p2pLibAdmitTP tp now o (some t) bs = .accepted) :
+    ∃ sh, headerStage o bs = .ok sh ∧ sh.header.proposerAddress = keyAddress R ∧
+      (OtherKeyTypeNoCollision o R sh.signer.pubKey → SignedByProposer o R sh) :=
+  C03_p2plib_full R hnc o t bs hp (p2plibTP_within_eq tp now o t bs hw ▸ h)
+
+/-- the same without hypotheses on SHA-256, in the shape of `C03_p2plib_stale_full` -/
+theorem p2plib_within_trusting_period_by_proposer_or_collision (R : Bytes) (tp now : Int) (o : Oracle)
+    (t : SignedHeader) (bs : Bytes) (hp : t.header.proposerAddress = keyAddress R)
+    (hw : headExpired tp now t = false) (h : p2pLibAdmitTP tp now o (some t) bs = .accepted) :
+    ∃ sh, headerStage o bs = .ok sh ∧ sh.header.proposerAddress = keyAddress R ∧
+      (SignedByProposer o R sh ∨ AddrCollision o R sh.signer.pubKey) :=
+  p2plib_by_proposer_or_collision o R t bs hp (p2plibTP_within_eq tp now o t bs hw ▸ h)
+
+/-- what the store's head is after the head request, within the period: the stored head, or a header one above it
+that names the proposer, links to the stored head and is signed by the proposer (or a collision is in hand) — for
+all inputs.  (This is what the op `p2pstale` prints.) -/
+theorem stale_store_head_within_trusting_period (R : Bytes) (tp now : Int) (o : Oracle) (t : SignedHeader)
+    (bs : Bytes) (hp : t.header.proposerAddress = keyAddress R) (hw : headExpired tp now t = false) :
+    staleStoreHead tp now o t bs = t.header.height ∨
+    ∃ sh, headerStage o bs = .ok sh ∧ staleStoreHead tp now o t bs = t.header.height + 1 ∧
+      sh.header.height = t.header.height + 1 ∧ sh.header.proposerAddress = keyAddress R ∧
+      sh.header.lastHeaderHash = t.header.hash ∧
+      (SignedByProposer o R sh ∨ AddrCollision o R sh.signer.pubKey) := by
+  unfold staleStoreHead
+  cases hs : headerStage o bs with
+  | wireErr => exact Or.inl rfl
+  | fromProtoErr => exact Or.inl rfl
+  | ok sh =>
+    simp only
+    split
+    · rename_i hc
+      simp only [Bool.and_eq_true, decide_eq_true_eq] at hc
+      obtain ⟨hacc, hh⟩ := hc
+      have hacc' : p2pLibAdmit o (some t) bs = .accepted := p2plibTP_within_eq tp now o t bs hw ▸ hacc
+      obtain ⟨sh', hs', ha, hl⟩ := p2plib_accepted_admitted o _ t bs hp hacc'
+      rw [hs] at hs'
+      have : sh' = sh := by injection hs' with hs'; exact hs'.symm
+      subst this
+      have hv := libVerify_spec t sh' hl
+      exact Or.inr ⟨sh', rfl, hh, hh, by rw [hv.1, hp], hv.2.2.2 hh.symm, p2p_by_proposer_or_collision o R sh' ha⟩
+    · exact Or.inl rfl
+
+example (hnc : AddrNoCollision proposerRaw) : ∃ sh, headerStage forgeO genuineNext.encode = .ok sh ∧
+    sh.header.proposerAddress = keyAddress proposerRaw ∧
+    (OtherKeyTypeNoCollision forgeO proposerRaw sh.signer.pubKey → SignedByProposer forgeO proposerRaw sh) :=
+  C03_p2plib_within_trusting_period proposerRaw hnc 100 50 forgeO genuineHeader _ rfl (by decide +kernel)
+    (by decide +kernel)
+
 /-! ## rejections that hold without any hypothesis -/
 
 /-! ### the binding itself: near misses -/
